@@ -183,7 +183,28 @@ def run_c07(run_, rng, tier):
         o = dict(rng.choice([{"f": 1}, {"f": 1, "v": 1}, {"t": 1}, {"f": 1, "R": 1}, {"f": 1, "dry": 1, "v": 1}, {"N": 1, "v": 1}]))
         o["i"] = "p.diff"; o["file"] = "f"
         scns.append(dict(tree={"f": ("R", 0o644, rng.choice([b"x\n", b"a\nc\n", b"", b"l0\nl1\nl2\n"])), "p.diff": ("R", 0o644, t)}, opts=o, umask=0o022, env=SAN_ENV))
+    # context diffs with the markers of some lines exchanged (a '+' become '-', a '!' on one side only, ...), the target present
+    for _ in range(120 if q else 3000):
+        a_ = [("l%d" % i_, "L") for i_ in range(rng.randint(2, 7))]
+        ops_ = []
+        for l_ in a_:
+            r_ = rng.random()
+            ops_ += [("-", l_), ("+", (l_[0] + "x", "L"))] if r_ < 0.3 else [("-", l_)] if r_ < 0.4 else [(" ", l_), ("+", ("n" + l_[0], "L"))] if r_ < 0.55 else [(" ", l_)]
+        hs_ = gen.hunks_from_ops(ops_, rng.choice([0, 1, 3]))
+        if not hs_:
+            continue
+        ls_ = emit.emit_context("a/f", "b/f", hs_).split(b"\n")
+        body_ = [i_ for i_, l_ in enumerate(ls_) if l_[:2] in (b"  ", b"+ ", b"- ", b"! ")]
+        for i_ in rng.sample(body_, min(len(body_), rng.choice([1, 1, 2]))):
+            ls_[i_] = rng.choice([b"+", b"-", b"!", b" "]) + ls_[i_][1:]
+        o = dict(rng.choice([{"f": 1}, {}, {"t": 1}, {"N": 1}, {"f": 1, "R": 1}]))
+        o.update(i="p.diff", p=1)
+        scns.append(dict(tree={"f": ("R", 0o644, emit.file_bytes([l_ for o_, l_ in ops_ if o_ != "+"])), "p.diff": ("R", 0o644, b"\n".join(ls_))}, opts=o, umask=0o022, env=SAN_ENV))
+    # a patch file that cannot be read (a directory: the open succeeds, every read fails), named by -i or as the second operand
+    for argv_ in (["-i", "pd"], ["f", "pd"], ["-i", "pd", "f"], ["--dry-run", "-i", "pd"], ["-f", "f", "pd"]):
+        scns.append(dict(tree={"f": ("R", 0o644, b"a\nb\n"), "pd": ("D", 0o755, b"")}, opts={}, argv=argv_, umask=0o022, env=SAN_ENV, no_model=True))
     _, b2, m2 = l2_family(run_, exe, scns, judge_c07, cls=lambda s, r: "L2 exit %d" % r["exit"], timeout=30)
+    m2 = [x for x in m2 if not scns[x[0]].get("no_model")]
     # an environment in which nothing can be written (file size limit 0, as on a full disk), and absolute names
     env_scns = []
     good = b"--- f\n+++ f\n@@ -1,2 +1,2 @@\n a\n-b\n+B\n"
